@@ -92,4 +92,74 @@ theorem kernel_int_checked_rem_decimal (prof : Profile) (i : Int) (y : Dec) (hq 
     Gen.K.int_checked_rem_decimal prof i y = checkedOfChecked (eqZero y) (remIntDec i y) :=
   Kernels.int_checked_rem_decimal_eq prof i y hq
 
+/-! ### algebraic laws: `checked_rem` against `%`
+Operator and checked variant share one body (`remDecDec`, `remDecInt`, `remIntDec`) behind the zero-divisor test: the operator is
+`opOfChecked z body`, the checked variant `checkedOfChecked z body` (`kernel_decimal_rem` … tie both to the Rust source). -/
+
+private theorem spec_rem_ne_any (a : Int) (p : Nat) (b : Int) (q : Nat) : Spec.rem a p b q ≠ .any := by
+  unfold Spec.rem
+  simp only []
+  (repeat' split) <;> simp
+
+/-- the shared body does not panic on the domain (non-zero divisor) -/
+theorem rem_body_no_panic (x y : Dec) (hx : Dom x) (hy : Dom y) (hy0 : eqZero y = false) : ∃ o, remDecDec x y = .ok o := by
+  have hy0' : y.coeff ≠ 0 := by simpa [eqZero] using hy0
+  exact allowedChecked_no_panic _ _ (remDecDec_spec x y hx hy hy0') (spec_rem_shape _ _ _ _ hy0').2.2 (spec_rem_ne_any _ _ _ _)
+
+/-- `x.checked_rem(y)` never panics on the domain -/
+theorem checked_rem_no_panic (x y : Dec) (hx : Dom x) (hy : Dom y) :
+    ∃ o, checkedOfChecked (eqZero y) (remDecDec x y) = .ok o :=
+  checked_form_no_panic _ _ (rem_body_no_panic x y hx hy)
+
+/-- `Some(r)` exactly when `x % y` returns `r` (no hypothesis) -/
+theorem checked_rem_some_iff (x y r : Dec) :
+    checkedOfChecked (eqZero y) (remDecDec x y) = .ok (some r) ↔ opOfChecked (eqZero y) (remDecDec x y) = .ok r :=
+  checked_some_iff_op_ok _ _ _
+
+/-- `None` exactly when `x % y` panics — division-by-zero panic or overflow panic, nothing else -/
+theorem checked_rem_none_iff (x y : Dec) (hx : Dom x) (hy : Dom y) :
+    checkedOfChecked (eqZero y) (remDecDec x y) = .ok none ↔
+      (opOfChecked (eqZero y) (remDecDec x y) = .panic .divzero ∨ opOfChecked (eqZero y) (remDecDec x y) = .panic .overflow) :=
+  checked_none_iff_op_panic _ _ (rem_body_no_panic x y hx hy)
+
+/-- the division-by-zero panic exactly for a zero divisor -/
+theorem rem_divzero_iff (x y : Dec) (hx : Dom x) (hy : Dom y) :
+    opOfChecked (eqZero y) (remDecDec x y) = .panic .divzero ↔ y.coeff = 0 := by
+  rw [op_divzero_iff _ _ (rem_body_no_panic x y hx hy)]
+  simp [eqZero]
+
+theorem rem_panic_kind (x y : Dec) (k : PanicKind) (hx : Dom x) (hy : Dom y)
+    (h : opOfChecked (eqZero y) (remDecDec x y) = .panic k) : k = .divzero ∨ k = .overflow :=
+  op_panic_kind _ _ k (rem_body_no_panic x y hx hy) h
+
+/-- the integer shapes: `Decimal % int` (`i` any i128 value) … -/
+theorem rem_dec_int_body_no_panic (x : Dec) (i : Int) (hx : Dom x) (hi : I128_MIN ≤ i ∧ i ≤ I128_MAX)
+    (hi0 : decide (i = 0) = false) : ∃ o, remDecInt x i = .ok o := by
+  have hi0' : i ≠ 0 := by simpa using hi0
+  exact allowedChecked_no_panic _ _ (rem_dec_int_spec x i hx hi hi0') (spec_rem_shape _ _ _ _ hi0').2.2 (spec_rem_ne_any _ _ _ _)
+
+theorem checked_rem_dec_int_none_iff (x : Dec) (i : Int) (hx : Dom x) (hi : I128_MIN ≤ i ∧ i ≤ I128_MAX) :
+    checkedOfChecked (decide (i = 0)) (remDecInt x i) = .ok none ↔
+      (opOfChecked (decide (i = 0)) (remDecInt x i) = .panic .divzero ∨
+        opOfChecked (decide (i = 0)) (remDecInt x i) = .panic .overflow) :=
+  checked_none_iff_op_panic _ _ (rem_dec_int_body_no_panic x i hx hi)
+
+/-- … and `int % Decimal` -/
+theorem rem_int_dec_body_no_panic (i : Int) (y : Dec) (hy : Dom y) (hi : I128_MIN ≤ i ∧ i ≤ I128_MAX)
+    (hy0 : eqZero y = false) : ∃ o, remIntDec i y = .ok o := by
+  have hy0' : y.coeff ≠ 0 := by simpa [eqZero] using hy0
+  exact allowedChecked_no_panic _ _ (rem_int_dec_spec i y hy hi hy0') (spec_rem_shape _ _ _ _ hy0').2.2 (spec_rem_ne_any _ _ _ _)
+
+theorem checked_rem_int_dec_none_iff (i : Int) (y : Dec) (hy : Dom y) (hi : I128_MIN ≤ i ∧ i ≤ I128_MAX) :
+    checkedOfChecked (eqZero y) (remIntDec i y) = .ok none ↔
+      (opOfChecked (eqZero y) (remIntDec i y) = .panic .divzero ∨ opOfChecked (eqZero y) (remIntDec i y) = .panic .overflow) :=
+  checked_none_iff_op_panic _ _ (rem_int_dec_body_no_panic i y hy hi)
+
+example : checkedOfChecked (eqZero ⟨7, 0⟩) (remDecDec ⟨-25, 1⟩ ⟨7, 0⟩) = .ok (some ⟨-25, 1⟩) ∧
+    opOfChecked (eqZero ⟨7, 0⟩) (remDecDec ⟨-25, 1⟩ ⟨7, 0⟩) = .ok ⟨-25, 1⟩ ∧
+    checkedOfChecked (eqZero ⟨0, 3⟩) (remDecDec ⟨-25, 1⟩ ⟨0, 3⟩) = .ok none ∧
+    opOfChecked (eqZero ⟨0, 3⟩) (remDecDec ⟨-25, 1⟩ ⟨0, 3⟩) = .panic .divzero ∧
+    checkedOfChecked (eqZero ⟨I128_MAX / 5, 3⟩) (remDecDec ⟨I128_MAX / 3, 1⟩ ⟨I128_MAX / 5, 3⟩) = .ok none ∧
+    opOfChecked (eqZero ⟨I128_MAX / 5, 3⟩) (remDecDec ⟨I128_MAX / 3, 1⟩ ⟨I128_MAX / 5, 3⟩) = .panic .overflow := by decide
+
 end Fpdec.Props.C10
